@@ -2,9 +2,10 @@ import Driver.Core
 import Driver.Formats
 import Driver.Filter
 import Driver.Block
+import Driver.Snappy
 open Lcdb Drv
 
-def handlers : List (List String → String) := [handleCore, handleFormats, handleFilter, handleBlock]
+def handlers : List (List String → String) := [handleCore, handleFormats, handleFilter, handleBlock, handleSnappy]
 
 def handle (line : String) : String :=
   let f := line.trimAscii.toString.splitOn " "
